@@ -41,6 +41,8 @@ WALL_BUDGET = {"quick": 900, "thorough": 3600}
 # plan: exhaustive sequences are chunked by their first two operations so that shards get equal work
 BOGUS = ("bogus", "bogusl", "bogusenterg", "bogusenterl")
 EXITS = ("exit", "exitx", "exitb")
+DECO = ("decog", "decol")
+_BOGUS_TURN = [0]
 
 
 class _LeaveByBaseException(BaseException):
@@ -54,6 +56,8 @@ def alphabet(nb, all_bogus=False):
     ops += [("bogus", None), ("exit", None), ("exitx", None), ("query", None)]
     if all_bogus:
         ops += [(b, None) for b in BOGUS[1:]] + [("exitb", None)]
+        for b in range(nb):
+            ops += [("decog", b), ("decol", b)]
     return ops
 
 
@@ -78,7 +82,7 @@ def plan(tier, seed):
 def floors(tier):
     return {"histories/exhaustive_backend": 30000, "histories/exhaustive_tenalg": 30000, "histories/random_backend": 50, "histories/random_tenalg": 50,
             "histories/cross_manager": 30, "stress_runs": 20, "observations": 300000, "dispatched_calls_checked": 300000, "rejected_selections": 10000,
-            "context_exits/normal": 5000, "context_exits/exception": 2000, "context_exits/base-exception": 2000, "single_writer_windows": 200, "stress_yield_injections": 1000, "stress_dispatched_calls": 5000,
+            "context_exits/normal": 5000, "context_exits/exception": 2000, "context_exits/base-exception": 2000, "single_writer_windows": 200, "decorated_nested_contexts": 100, "stress_yield_injections": 1000, "stress_dispatched_calls": 5000,
             "rejected_by/bogusenterg": 1000, "rejected_by/bogusenterl": 1000, "rejected_by/bogusl": 1000}
 
 
@@ -113,12 +117,14 @@ class Manager:
                 class StubJax(NumpyBackend, backend_name="jax"):
                     pass
             self.names = ["numpy", "cupy", "jax"]
+            self.foreign_name = "einsum"
             self.marker = "ndim"
             self.marker_args = (np.zeros((2, 2)),)
         else:
             self.mod = tenalg.TenalgBackendManager
             self.api = tenalg
             self.names = ["core", "einsum"]
+            self.foreign_name = "numpy"
             self.marker = "kronecker"
             self.marker_args = ([np.eye(2), np.eye(2)],)
         # load every backend once and wrap the marker method on each *instance*
@@ -208,12 +214,15 @@ def do_op(m, stack, op, arg):
         api.set_backend(m.names[arg], local_threadsafe=True)
         return "ok"
     if op in BOGUS:
+        # unknown to this manager: either a name nobody knows, or a perfectly good name of the *other* manager
+        _BOGUS_TURN[0] += 1
+        bad = "no-such-backend" if _BOGUS_TURN[0] % 2 else m.foreign_name
         try:
             if op in ("bogus", "bogusl"):
-                api.set_backend("no-such-backend", local_threadsafe=(op == "bogusl"))
+                api.set_backend(bad, local_threadsafe=(op == "bogusl"))
             else:
                 # a context whose entry is rejected was never entered: nothing to leave, nothing may change
-                cm = api.backend_context("no-such-backend", local_threadsafe=(op == "bogusenterl"))
+                cm = api.backend_context(bad, local_threadsafe=(op == "bogusenterl"))
                 cm.__enter__()
                 stack.append(cm)
         except ValueError:
@@ -247,6 +256,19 @@ def do_op(m, stack, op, arg):
         except Exception as e:  # noqa
             return "exit-raised-%s" % type(e).__name__
         return "ok"
+    if op in DECO:
+        # one context-manager object used as a decorator on a function that calls itself: the object is active twice at once
+        name = m.names[arg]
+        seen = []
+
+        @api.backend_context(name, local_threadsafe=(op == "decol"))
+        def recurse(depth):
+            seen.append(api.get_backend())
+            if depth:
+                recurse(depth - 1)
+            seen.append(api.get_backend())
+        recurse(1)
+        return "ok" if all(x == name for x in seen) else "inner-view-%s" % "/".join(seen)
     if op == "query":
         return "ok"
     raise ValueError(op)
@@ -275,6 +297,12 @@ def model_step(states, t, op, b):
             out.add((g, tuple(priv_l), stacks))
         elif op in BOGUS or op == "query":
             out.add((g, priv, stacks))
+        elif op in DECO:
+            e = "enterg" if op == "decog" else "enterl"
+            cur = {(g, priv, stacks)}
+            for sub in (e, e, "exit", "exit"):
+                cur = model_step(cur, t, sub, b)
+            out |= cur
         elif op in ("enterg", "enterl"):
             prev = priv[t] if priv[t] is not None else g
             stacks_l[t] = stacks[t] + ((prev, op == "enterl"),)
@@ -342,6 +370,11 @@ def run_history(ctx, mname, hist, nthreads, nb, label):
             if outcome != "rejected":
                 ctx.violation("C17:%s:rejected-selection:%s" % (mname, outcome), "%s with an unknown backend name: outcome %s (expected ValueError)" % (
                     "set_backend" if op in ("bogus", "bogusl") else "backend_context", outcome), {"history": hist[:step + 1]})
+                return False
+        if op in DECO:
+            ctx.count("decorated_nested_contexts")
+            if outcome != "ok":
+                ctx.violation("C17:%s:decorated-context:%s" % (mname, op), "inside a recursive function decorated with backend_context(%s) the thread observed %s" % (bname, outcome), {"history": hist[:step + 1]})
                 return False
         if op in EXITS and outcome not in ("ok", "noop"):
             ctx.violation("C17:%s:context-exit:%s" % (mname, outcome), "leaving backend_context (%s) %s" % ("by exception" if op != "exit" else "normally", outcome),
